@@ -242,6 +242,9 @@ def run_fixed(chk, tier, replay_set=None):
     mb, mx, cc = (2, 1, "CC2") if tier == "quick" else (2, 2, "CC5")
     jobs = []
     for name, stmts, ctx in sets:
+        if tier == "quick":
+            # a trailing comment on a continued line and one at the end need two extras: one break with two extras, or two breaks with one
+            mb, mx = ((1, 2) if name[-1] in "13579" else (2, 1)) if len(stmts) == 1 else (2, 1)
         cfg = "_FixedForm_%s_%s.cfg" % (name, tier)
         with open(os.path.join(common.SPECS, cfg), "w") as f:
             f.write("SPECIFICATION Spec\nCONSTANTS\n  Stmts <- %s\n  MaxBreaks = %d\n  MaxExtras = %d\n  ContChars <- %s\nINVARIANT RoundTrip\nCONSTRAINT Dump\n" % (name, mb, mx, cc))
